@@ -25,3 +25,39 @@ Theorem C16_translate_cases_distinct :
     valid_codes decls final = true -> NoDup (fixed_codes decls) -> NoDup (map snd final).
 Proof. intros decls final H. exact (proj2 (proj2 (FrontProofs.valid_codes_sound decls final H))). Qed.
 Print Assumptions C16_translate_cases_distinct.
+
+From Coq Require Import NArith Ascii.
+From YG Require Import EmitAction.
+Close Scope Z_scope.
+Open Scope nat_scope.
+
+(* the model of the action substitution (actionCodeReplace): an action that does not mention the dollar sign is pasted into the reduce function as it is *)
+Theorem C16_action_plain :
+  forall (sp ao am ltag : list Ascii.ascii) (rtags : list (list Ascii.ascii)) (s : list Ascii.ascii),
+         forallb (fun c : Ascii.ascii => negb (is_dollar c)) s = true ->
+         subst_action sp ao am ltag rtags s = Some s.
+Proof. exact EmitAction.subst_plain. Qed.
+Print Assumptions C16_action_plain.
+
+From Coq Require Import NArith Ascii.
+From YG Require Import EmitAction.
+Close Scope Z_scope.
+Open Scope nat_scope.
+
+(* what is emitted for a reference to the n-th symbol: open ++ digits ++ mid ++ tag of symbol n, exactly when n is in range and that symbol has a tag (otherwise the generation stops with a diagnostic) *)
+Theorem C16_action_reference :
+  forall (ao am : list Ascii.ascii) (rtags : list (list Ascii.ascii)) (ds out : list Ascii.ascii),
+         arg_code ao am rtags ds = Some out <->
+         (exists (k : nat) (tag : list Ascii.ascii),
+            N.to_nat (dig_val 0 ds) = S k /\
+            nth_error rtags k = Some tag /\ tag <> [] /\ out = ao ++ ds ++ am ++ tag).
+Proof. exact EmitAction.arg_code_spec. Qed.
+Print Assumptions C16_action_reference.
+
+(* the substitution on a concrete action: value of the left-hand side, two references, a dollar sign that is no reference;
+   an untyped symbol, an index beyond the rule, index 0 and index 10 stop the generation *)
+Example C16_action_example :
+  subst_action ["S"; "."]%char ["D"; "["]%char ["]"; "."]%char ["v"]%char [["a"]; []; ["c"]]%char ["$"; "$"; "="; "$"; "1"; "+"; "$"; "3"; ";"; "$"; "x"]%char
+  = Some ["S"; "."; "v"; "="; "D"; "["; "1"; "]"; "."; "a"; "+"; "D"; "["; "3"; "]"; "."; "c"; ";"; "$"; "x"]%char.
+Proof. exact (proj1 EmitAction.subst_example). Qed.
+Print Assumptions C16_action_example.
